@@ -578,6 +578,54 @@ func segRace2(h hist, rounds int) (lost, ok int) {
 	return
 }
 
+// upriorace: UnboundedPriorityMailBox publishes under its lock but counts afterwards. Producer A (priority 0)
+// stalls between the heap push and length++; producer B (priority 1) completes; the consumer's first Dequeue
+// takes A's message, the second sees length == 0 and reports empty although B's completed Enqueue is still in
+// the heap. Deterministic witness of known finding TransientEmpty:uprio.
+func uprioRace(h hist, rounds int) (hit, miss int) {
+	snd := actor.VerifNewSenderPID("m")
+	for r := 0; r < rounds; r++ {
+		h.w.Raw(map[string]any{"ev": "New"})
+		m := actor.NewUnboundedPriorityMailBox(prioFunc)
+		s := sched.New()
+		s.Watchdog = 3 * time.Second
+		s.ControlAll()
+		s.OnlyPoints("uprio.enq.count")
+		s.Go("a", func() {
+			h.call("a", "enq", 1, "a", 0)
+			err := m.Enqueue(actor.VerifNewContext(snd, &Msg{ID: 1, Prio: 0}))
+			h.ret("a", "enq", b2i(err == nil))
+		}) // parked between push and count
+		h.call("b", "enq", 2, "b", 1)
+		err := m.Enqueue(actor.VerifNewContext(snd, &Msg{ID: 2, Prio: 1}))
+		h.ret("b", "enq", b2i(err == nil))
+		deq := func() int {
+			h.call("c", "deq", 0, "", 0)
+			r := msgID(m.Dequeue())
+			h.ret("c", "deq", r)
+			return r
+		}
+		d1 := deq()
+		d2 := deq()
+		h.call("c", "empty", 0, "", 0)
+		h.ret("c", "empty", b2i(m.IsEmpty()))
+		s.FreeRun()
+		s.Join(3 * time.Second)
+		s.Close()
+		for i := 0; i < 4 && deq() != 0; i++ {
+		}
+		h.call("c", "empty", 0, "", 0)
+		h.ret("c", "empty", b2i(m.IsEmpty()))
+		if d1 == 1 && d2 == 0 {
+			hit++
+		} else {
+			miss++
+		}
+	}
+	h.w.Raw(map[string]any{"ev": "New"})
+	return
+}
+
 func main() {
 	if len(os.Args) < 2 {
 		fatal("usage: mailbox replay|stress ...")
@@ -603,7 +651,7 @@ func main() {
 		}
 		out, _ := json.Marshal(st)
 		fmt.Println(string(out))
-	case "segrace", "segrace2":
+	case "segrace", "segrace2", "upriorace":
 		if len(os.Args) != 4 {
 			fatal("usage: mailbox segrace <rounds> <trace>")
 		}
@@ -615,6 +663,8 @@ func main() {
 		var rep, unrep int
 		if os.Args[1] == "segrace2" {
 			rep, unrep = segRace2(hist{w}, rounds)
+		} else if os.Args[1] == "upriorace" {
+			rep, unrep = uprioRace(hist{w}, rounds)
 		} else {
 			rep, unrep = segRace(hist{w}, rounds)
 		}
